@@ -17,6 +17,7 @@ then evaluated with independent arithmetic (exact math.fsum sums, own cdf-differ
 Summation tolerance: N*1.2e-16 (worst-case bound of the code's sequential cumsum of N non-negative terms with sum <= 1).
 """
 import time
+import warnings
 
 import numpy as np
 
@@ -33,6 +34,7 @@ CLAUSES = {
     "threshold": "the enclosed region is the set of grid cells whose cell-averaged density is at least the reported threshold fm",
     "warning": "if the grid cannot capture probability 1-alpha a RuntimeWarning is raised rather than a smaller region being returned silently",
     "enclosed": "the contour's coordinates belong to the enclosed region",
+    "history": "for every model, alpha and grid: a contour does not depend on contours computed earlier from the same model object",
 }
 
 
@@ -177,12 +179,51 @@ def check(inputs, book):
                  "enclosed_probability": p_in, "grid_total": total, "fm": fm, "runtime_warning": bool(msgs)})
 
 
+def check_history(inputs, book):
+    """a second (and third) contour computed from the SAME model object gives what a freshly built model gives:
+    nothing computed for an earlier contour may leak into a later one"""
+    from virocon import HighestDensityContour
+    grp = _klass(inputs)
+    tag = "history"
+    try:
+        lim, dl = A.hdc_decode_limits(inputs), A.hdc_decode_deltas(inputs)
+        if lim is None or dl is None:
+            return
+        alpha = float(inputs["alpha"])
+        alphas = [alpha, alpha, min(0.45, alpha * 2.5)]
+        model = A.build_model(inputs["recipe"])
+        got, want = [], []
+        with warnings.catch_warnings():
+            warnings.simplefilter("ignore")
+            for a in alphas:
+                c = HighestDensityContour(model, a, lim, dl)
+                got.append((float(c.fm), np.asarray(c.coordinates, dtype=object if isinstance(c.coordinates, list) else float)))
+            for a in alphas:
+                c = HighestDensityContour(A.build_model(inputs["recipe"]), a, lim, dl)
+                want.append((float(c.fm), np.asarray(c.coordinates, dtype=object if isinstance(c.coordinates, list) else float)))
+        bad = []
+        for k, ((f1, c1), (f2, c2)) in enumerate(zip(got, want)):
+            same = f1 == f2 and c1.shape == c2.shape and (c1.dtype == object or np.array_equal(c1, c2))
+            if not same:
+                bad.append(f"contour {k + 1} (alpha={alphas[k]:.4g}) of the re-used model: fm {f1!r} / {c1.shape} points, fresh model: fm {f2!r} / {c2.shape} points")
+        book.ev(grp, not bad, f"C02/{grp}/{tag}", CLAUSES[tag], f"[{inputs.get('label')}] " + "; ".join(bad), inputs)
+    except Exception:
+        book.ev(grp, False, f"C02/{grp}/{tag}", CLAUSES[tag], f"[{inputs.get('label')}] raised: " + A.last_tb_line(), inputs)
+
+
 def run(tier, seed):
     t0 = time.time()
     book = A.Book()
     scen = A.hdc_gen_scenarios(tier, seed, "C02")
     for sc in scen:
         check(sc, book)
+    n_hist = 0
+    for sc in scen:
+        if n_hist >= (4 if tier == "quick" else 16):
+            break
+        if A.hdc_decode_limits(sc) is not None and A.hdc_decode_deltas(sc) is not None and len(sc["recipe"]["dims"]) == 2:
+            check_history(sc, book)
+            n_hist += 1
     return {
         "evaluations": book.evaluations,
         "distinct_nontrivial": len(book.keys),
